@@ -11,9 +11,11 @@ CONSTANTS
   WholeOnly = FALSE
   Sizes = {1, 2}
   FixCommonSnapshot = TRUE
+  Dev_StalePathReuse = FALSE
   GenDepth = 0
   GenHistory = FALSE
   GenReject = FALSE
+  GenOnlyAfterReject = FALSE
 VIEW LoadView
 INVARIANT EmitLoad
 CHECK_DEADLOCK FALSE
